@@ -122,6 +122,10 @@ class Problem(object):
         raise ViolationError("crash:" + what + ":" + crash_site(msg), "%s: %s" % (what, msg),
                              observed=msg)
 
+    def can_end(self, pstate):
+        """may the input legally end in this producer state? (eof oracle applied only then)"""
+        return True
+
     def whole(self, hist, res, pstate):
         """optional oracle on the whole render result of a history"""
         return None
@@ -221,7 +225,8 @@ def bfs(problem, driver, cid, stats=None, batch=256, max_states=None, deadline=N
                 # a violation in the end-of-input flush does not invalidate the state reached:
                 # report it and keep expanding
                 try:
-                    problem.eof(model2, flush_out, ps2)
+                    if problem.can_end(ps2):
+                        problem.eof(model2, flush_out, ps2)
                     problem.whole(h2, res, ps2)
                 except ViolationError as ve:
                     record(ve, "eof-after:")
